@@ -5,8 +5,16 @@ mod c17;
 mod c17_run;
 mod c18;
 mod c18_run;
+mod c20_inputs;
+mod c20_ops;
+mod c20_run;
+mod seams;
 mod cli;
+mod poolcheck;
 mod sendprobe;
+
+#[global_allocator]
+static GLOBAL: seams::SimAlloc = seams::SimAlloc;
 
 fn main() {
     let a = cli::parse_args();
@@ -15,6 +23,10 @@ fn main() {
         ("C17", "replay") => c17_run::replay(&a),
         ("C18", "run") => c18_run::run(&a),
         ("C18", "replay") => c18_run::replay(&a),
+        ("C20", "run") => c20_run::run(&a),
+        ("C20", "replay") => c20_run::replay(&a),
+        ("C20", "exec") => c20_run::exec_one(&a),
+        ("UTIL", "poolcheck") => poolcheck::run(),
         ("UTIL", "merge-hashes") => merge_hashes(&a),
         _ => {
             eprintln!("unknown engine/mode {} {}", a.prop, a.mode);
@@ -28,12 +40,14 @@ fn main() {
 fn merge_hashes(a: &cli::Args) -> i32 {
     let prop = a.extra.get("prop").expect("--prop");
     let mut all: Vec<u64> = Vec::new();
-    for e in std::fs::read_dir(&a.out_dir).expect("out dir") {
-        let p = e.unwrap().path();
-        let name = p.file_name().unwrap().to_string_lossy().to_string();
-        if name.starts_with(&format!("{prop}-shard")) && name.ends_with(".hashes") {
-            let b = std::fs::read(&p).unwrap();
-            all.extend(b.chunks_exact(8).map(|c| u64::from_le_bytes(c.try_into().unwrap())));
+    for dir in a.out_dir.split(',') {
+        for e in std::fs::read_dir(dir).expect("out dir") {
+            let p = e.unwrap().path();
+            let name = p.file_name().unwrap().to_string_lossy().to_string();
+            if name.starts_with(&format!("{prop}-shard")) && name.ends_with(".hashes") {
+                let b = std::fs::read(&p).unwrap();
+                all.extend(b.chunks_exact(8).map(|c| u64::from_le_bytes(c.try_into().unwrap())));
+            }
         }
     }
     all.sort_unstable();
